@@ -71,8 +71,10 @@ func splitLinesRef(input []byte) [][]byte {
 	return lines
 }
 
-var cliDocs = []string{`{"a":1}`, `{"a":2}`, `[1,2,3]`, `{"a":[1,2,{"b":"x"}]}`, `"s"`, `""`, `null`, `[]`, `{}`, `{"a":""}`, `{"a":null}`, `x`, `{"a":`, ``, ` `, `3`, `[1e400]`, `{"a":1e400}`}
-var cliExprs = []string{"$.a", "$", "$..a", "$.b", "@.a", "$.a[0]", "avg($..a)", "1+2", "2 * pi * $", "length($)", "pow10(400)", "0/0", "1 % 0", "$[", "foo(", "$.a[?(@ > 1)]", "'s'", "\"\"", "null", "$.*", "size($)", "$.a.b.c"}
+var cliDocs = []string{`{"a":1}`, `{"a":2}`, `[1,2,3]`, `{"a":[1,2,{"b":"x"}]}`, `"s"`, `""`, `null`, `[]`, `{}`, `{"a":""}`, `{"a":null}`, `x`, `{"a":`, ``, ` `, `3`, `[1e400]`, `{"a":1e400}`,
+	// text that a printf-style output path would mangle, and bytes a line/stream reader may treat specially
+	`{"a":"100%"}`, `{"a":"%d items, %s and %v%%"}`, `["%!x(MISSING)","%"]`, `{"a":"tab\tquote\"back\\slash"}`, `{"a":"é\u00e9\ud83d\ude00"}`, "{\"a\":\"raw\xff\"}", `{"a%s":"k"}`, `7`, `0`, `"%"`}
+var cliExprs = []string{"$.a", "$", "$..a", "$.b", "@.a", "$.a[0]", "avg($..a)", "1+2", "2 * pi * $", "length($)", "pow10(400)", "0/0", "1 % 0", "$[", "foo(", "$.a[?(@ > 1)]", "'s'", "\"\"", "null", "$.*", "size($)", "$.a.b.c", "'100%'", "'%s' + $.a", "$['a%s']"}
 
 func streamCli(o *Out, r *Rng, tier string) {
 	n := 250
